@@ -138,14 +138,16 @@ type vfSwitch struct {
 	failListen map[int]bool // n-th listen fails
 	listens    int
 	onEmit     func(*vfDgram)
-	failWrite  map[string]int // owner -> number of upcoming WriteTo calls that fail with an I/O error
+	failWrite  map[string]int  // owner -> number of upcoming WriteTo calls that fail with an I/O error
+	blockWrite map[string]bool // owner -> WriteTo blocks until a write deadline fires or the socket is closed
+	closeErr   map[string]bool // owner -> Close returns an error (the socket is closed all the same)
 }
 
 func newVfSwitch() *vfSwitch {
 	return &vfSwitch{
 		eps: map[netip.AddrPort]*vfConn{}, nextPort: 40000,
 		natPub: map[netip.Addr]netip.Addr{}, natPriv: map[netip.Addr]netip.Addr{},
-		unreach: map[[2]netip.Addr]bool{}, pwds: map[string]string{}, failWrite: map[string]int{},
+		unreach: map[[2]netip.Addr]bool{}, pwds: map[string]string{}, failWrite: map[string]int{}, blockWrite: map[string]bool{}, closeErr: map[string]bool{},
 	}
 }
 
@@ -200,19 +202,22 @@ func (s *vfSwitch) reachable(srcPriv, dstWire netip.AddrPort) bool {
 }
 
 type vfConn struct {
-	sw      *vfSwitch
-	owner   string
-	local   netip.AddrPort
-	inbox   chan *vfDgram
-	closed  chan struct{}
-	once    sync.Once
-	waiting atomic.Int64 // number of ReadFrom entries: the "reader parked again" signal
-	closes  atomic.Int64
-	dlMu    sync.Mutex
-	rdl     time.Time
-	dlCh    chan struct{}
-	created string
-	manual  *vfPeer // socket owned by the scripted peer: no reader goroutine, deliveries go to the peer's inbox
+	sw            *vfSwitch
+	owner         string
+	local         netip.AddrPort
+	inbox         chan *vfDgram
+	closed        chan struct{}
+	once          sync.Once
+	waiting       atomic.Int64 // number of ReadFrom entries: the "reader parked again" signal
+	closes        atomic.Int64
+	dlMu          sync.Mutex
+	rdl           time.Time
+	dlCh          chan struct{}
+	wdl           time.Time
+	wdlCh         chan struct{}
+	blockedWrites atomic.Int32
+	created       string
+	manual        *vfPeer // socket owned by the scripted peer: no reader goroutine, deliveries go to the peer's inbox
 }
 
 func (c *vfConn) LocalAddr() net.Addr  { return net.UDPAddrFromAddrPort(c.local) }
@@ -236,15 +241,37 @@ func (c *vfConn) Close() error {
 		}
 		c.sw.mu.Unlock()
 	})
+	c.sw.mu.Lock()
+	fail := c.sw.closeErr[c.owner]
+	c.sw.mu.Unlock()
+	if fail {
+		return errors.New("vfConn: injected close error")
+	}
 
 	return nil
 }
-func (c *vfConn) SetDeadline(t time.Time) error    { return c.SetReadDeadline(t) }
-func (c *vfConn) SetWriteDeadline(time.Time) error { return nil }
-func (c *vfConn) SetReadBuffer(int) error          { return nil }
-func (c *vfConn) SetWriteBuffer(int) error         { return nil }
-func (c *vfConn) Write([]byte) (int, error)        { return 0, errors.New("unsupported") }
-func (c *vfConn) Read(b []byte) (int, error)       { n, _, err := c.ReadFrom(b); return n, err }
+func (c *vfConn) SetDeadline(t time.Time) error {
+	_ = c.SetWriteDeadline(t)
+
+	return c.SetReadDeadline(t)
+}
+
+func (c *vfConn) SetWriteDeadline(t time.Time) error {
+	c.dlMu.Lock()
+	c.wdl = t
+	ch := c.wdlCh
+	c.wdlCh = make(chan struct{})
+	c.dlMu.Unlock()
+	if ch != nil {
+		close(ch)
+	}
+
+	return nil
+}
+func (c *vfConn) SetReadBuffer(int) error    { return nil }
+func (c *vfConn) SetWriteBuffer(int) error   { return nil }
+func (c *vfConn) Write([]byte) (int, error)  { return 0, errors.New("unsupported") }
+func (c *vfConn) Read(b []byte) (int, error) { n, _, err := c.ReadFrom(b); return n, err }
 func (c *vfConn) SetReadDeadline(t time.Time) error {
 	c.dlMu.Lock()
 	c.rdl = t
@@ -331,7 +358,43 @@ func (c *vfConn) WriteTo(p []byte, addr net.Addr) (int, error) {
 
 		return 0, errors.New("vfConn: injected write failure")
 	}
+	block := c.sw.blockWrite[c.owner]
 	c.sw.mu.Unlock()
+	if block {
+		// a socket whose send buffer is full: blocks until a write deadline fires or the socket is closed
+		c.blockedWrites.Add(1)
+		defer c.blockedWrites.Add(-1)
+		for {
+			c.dlMu.Lock()
+			if c.wdlCh == nil {
+				c.wdlCh = make(chan struct{})
+			}
+			dl, ch := c.wdl, c.wdlCh
+			c.dlMu.Unlock()
+			var tm <-chan time.Time
+			var t *time.Timer
+			if !dl.IsZero() {
+				if !time.Now().Before(dl) {
+					return 0, os.ErrDeadlineExceeded
+				}
+				t = time.NewTimer(time.Until(dl))
+				tm = t.C
+			}
+			select {
+			case <-c.closed:
+				if t != nil {
+					t.Stop()
+				}
+
+				return 0, io.ErrClosedPipe
+			case <-ch:
+			case <-tm:
+			}
+			if t != nil {
+				t.Stop()
+			}
+		}
+	}
 	c.sw.emit(c, canonicalAddrPort(ua.AddrPort()), p, false)
 
 	return len(p), nil
